@@ -16,6 +16,36 @@ CHECKS = {
              "listed families, nothing outside them.",
         ref="DESIGN.md 3, 4.1, 5 (C01)",
         technique="bounded-exhaustive enumeration of real code against a reference model (explicit-state, no sampling)"),
+    "C02": dict(
+        text="Same exhaustive enumeration as C01; every result is checked with an exact structural oracle: each result edge "
+             "decomposes into 1-cells of the complex and no 1-cell is used twice over all rings (no shared or repeated boundary "
+             "segment), each hole lies inside its own exterior and outside its siblings (face sets by exact parity), polygons "
+             "are disjoint, polygon-wise reading == even-odd reading on every face; on float tables exact pairwise "
+             "crossing/overlap tests of result edges plus witness-based nesting.",
+        ref="DESIGN.md 4.2, 5 (C02)",
+        technique="bounded-exhaustive enumeration of real code with an exact structural invariant on every result"),
+    "C03": dict(
+        text="Exhaustive enumeration of the same families in BOTH build flavours (release and optimised-with-debug-assertions "
+             "binaries) and in f32 and f64, plus every degenerate encoding the property names on one or both sides of every "
+             "G22/T22 pair, plus a scenario matrix of 10^4..10^6-edge inputs each run in a child process on the default stack. "
+             "Oracle: the call returns (no unwind, no signal, no timeout) and the hook counter of popped sweep events stays "
+             "below 4n^2+4n+16; a budget at 8x that turns a runaway sweep into a distinctive panic.",
+        ref="DESIGN.md 5 (C03), 6",
+        technique="bounded-exhaustive enumeration over inputs x build configurations with an event-budget hook; scenario matrix in child processes"),
+    "C04": dict(
+        text="Same exhaustive enumeration; provenance oracle with exact predicates: every result edge lies exactly on one input "
+             "edge, every result vertex is bit-identical to an input vertex or lies exactly on two non-collinear input edges "
+             "(tolerance 0 on complex families, 1e-9 x magnitude with a rational reference on float/lattice families), rings "
+             "closed, >= 3 distinct vertices, non-zero area, counter-clockwise unless the independently recomputed bounding-box "
+             "shortcut predicate holds (which must agree with the hook flag).",
+        ref="DESIGN.md 4.2, 5 (C04)",
+        technique="bounded-exhaustive enumeration of real code with exact provenance predicates on every result"),
+    "C05": dict(
+        text="Same exhaustive enumeration; the five results I, U, A-B, B-A, X of each pair are compared with each other (not with "
+             "the model): pairwise disjointness, cover of the union, X = (A-B)+(B-A) on every face witness, and the three area "
+             "identities exactly (complex families: all areas are multiples of 1/4) or within 1e-9 relative (float tables).",
+        ref="DESIGN.md 5 (C05)",
+        technique="bounded-exhaustive enumeration of real code, differential oracle between the four operations"),
 }
 
 NOT_YET = "check under construction in this round (designed in DESIGN.md section 5, not yet registered)"
